@@ -221,6 +221,7 @@ class C20(Check):
                     k = len(st) % len(order)
                     lazy = {w: o2.rank_world(w) for w in (order[k:] + order[:k])[:3]}
                     got = snapshot(o2, queries)
+                    res.outcomes.add(tuple(sorted(want["ranks"].values())))
                     if loaded_ranks != before or got != want or any(lazy[w] != want["ranks"][w] for w in lazy):
                         res.violation(self.id, "reload-differs", dict(c2, channel="same-process"), want, {"as_loaded": loaded_ranks, "completed": got})
                     else:
@@ -404,7 +405,7 @@ class C20(Check):
                 with patched_open(None) as po:
                     fn(fresh_obj(kind), os.path.join(tmp, "dry"))
                 nwrites = po.counter[0]
-                res.counters["write_calls_%s" % opname] = max(res.counters["write_calls_%s" % opname], nwrites)
+                res.counters["crash_points_%s" % opname] += nwrites + 1
                 for k in range(0, nwrites + 1):
                     o = fresh_obj(kind)
                     before = state(o)
@@ -419,6 +420,7 @@ class C20(Check):
                         raised = "other:" + type(e).__name__
                     c2 = dict(case, kind=kind, operation=opname, fail_at_write=k, tname=opname)
                     after = state(o)
+                    res.outcomes.add((opname, raised))
                     try:
                         usable = snapshot(o, queries) == want
                     except Exception as e:  # noqa: BLE001
